@@ -14,15 +14,15 @@ Variable validate_block : sstate -> block sig -> bool.
 Variable apply_block : sstate -> block sig -> option (list validator * Z).
 
 Notation nonneg := (Forall (fun v => 0 <= v_power v)).
-Notation add_vote' := (add_vote sig sv pk_addr).
-Notation ctv_loop' := (ctv_loop sig sv pk_addr).
-Notation commit_to_voteset' := (commit_to_voteset sig sv pk_addr).
-Notation reconstruct' := (reconstruct_last_commit sig sv pk_addr).
-Notation handover' := (handover sig sv pk_addr).
-Notation process' := (process_step sig validate_block apply_block).
-Notation step' := (step sig validate_block apply_block).
-Notation run' := (run sig validate_block apply_block).
-Notation verify_first' := (verify_first sig validate_block).
+Notation add_vote' := (add_vote sv pk_addr).
+Notation ctv_loop' := (ctv_loop sv pk_addr).
+Notation commit_to_voteset' := (commit_to_voteset sv pk_addr).
+Notation reconstruct' := (reconstruct_last_commit sv pk_addr).
+Notation handover' := (handover sv pk_addr).
+Notation process' := (process_step validate_block apply_block).
+Notation step' := (step validate_block apply_block).
+Notation run' := (run validate_block apply_block).
+Notation verify_first' := (verify_first validate_block).
 
 (* ================================================================== CommitToVoteSet *)
 
@@ -66,7 +66,8 @@ Lemma ctv_loop_ok : forall chain (c : commit sig) total sigs pre vsuf vs,
     (vs_maj23 vs <> None -> vs_maj23 vs' <> None).
 Proof.
   intros chain c total sigs. induction sigs as [|cs sigs IH]; intros pre vsuf vs Ht Hl Hnn Hk Ha Hs Hseen Hm.
-  - destruct vsuf; [|discriminate]. exists vs. cbn. repeat split; try assumption; lia.
+  - destruct vsuf; [|discriminate]. exists vs. split; [reflexivity|]. split; [assumption|].
+    split; [cbn [block_tally]; lia | auto].
   - destruct vsuf as [|v vsuf]; [discriminate|]. cbn [length] in Hl. injection Hl as Hl.
     inversion Hnn as [|? ? Hv Hnn']; subst. inversion Hk as [|? ? [Hkv Hv0] Hk']; subst.
     unfold addrs_ok in Ha. cbn [combine] in Ha. apply Forall_cons_iff in Ha as [Ha1 Ha2]. cbn [fst snd] in Ha1.
@@ -112,7 +113,7 @@ Proof.
         rewrite bsum_get_add.
         destruct (vs_maj23 vs) eqn:Emj.
         -- destruct ((orig <? q) && (q <=? orig + v_power v)); discriminate.
-        -- pose proof (Hm eq_refl) as Hlt.
+        -- pose proof (Hm Emj) as Hlt.
            destruct ((orig <? q) && (q <=? orig + v_power v)) eqn:Ecross; [discriminate|].
            destruct (Z.eqb_spec b b') as [Ebb|Ebb]; [|apply Hlt].
            subst b'. specialize (Hlt b). fold orig in Hlt. fold orig.
@@ -176,12 +177,12 @@ Proof. intros vs chain bid h c Hwf H. exact (verify_commit_light_sound sig sv vs
 Definition saved_ok (e : event sig) : Prop :=
   match e with
   | E_saved st first second =>
-    let c := b_last_commit sig second in
+    let c := b_last_commit second in
     validate_block st first = true /\
     (wf_valset (st_vals st) ->
      length (st_vals st) = length (c_sigs c) /\
-     c_height c = b_height sig first /\ c_bid c = b_id sig first /\
-     3 * good_tally sig sv (st_chain st) (b_height sig first) (c_round c) (b_id sig first)
+     c_height c = b_height first /\ c_bid c = b_id first /\
+     3 * good_tally sig sv (st_chain st) (b_height first) (c_round c) (b_id first)
                     (st_vals st) (c_sigs c) > 2 * sum_power (st_vals st))
   | E_rejected _ _ _ _ _ => True
   end.
@@ -191,47 +192,200 @@ Fixpoint log_store (l : list (event sig)) : list (sentry sig) :=
   match l with
   | [] => []
   | E_saved _ first second :: r =>
-    {| se_height := b_height sig first; se_id := b_id sig first; se_seen := b_last_commit sig second |}
+    {| se_height := b_height first; se_id := b_id first; se_seen := b_last_commit second |}
       :: log_store r
   | E_rejected _ _ _ _ _ :: r => log_store r
   end.
 
 Lemma stop_peer_frame : forall (n : node sig) p,
-  n_log sig (stop_peer sig n p) = n_log sig n /\ n_store sig (stop_peer sig n p) = n_store sig n /\
-  n_state sig (stop_peer sig n p) = n_state sig n /\ n_panicked sig (stop_peer sig n p) = n_panicked sig n.
-Proof. intros n p. unfold stop_peer. destruct ((p =? 0) || is_stopped sig n p); cbn; repeat split. Qed.
+  n_log (stop_peer n p) = n_log n /\ n_store (stop_peer n p) = n_store n /\
+  n_state (stop_peer n p) = n_state n.
+Proof. intros n p. unfold stop_peer. destruct ((p =? 0) || is_stopped n p); cbn; repeat split. Qed.
 
 Lemma stop_list_frame : forall l (n : node sig),
-  let m := fold_right (fun p m => stop_peer sig m p) n l in
-  n_log sig m = n_log sig n /\ n_store sig m = n_store sig n /\ n_state sig m = n_state sig n.
+  n_log (fold_right (fun p m => stop_peer m p) n l) = n_log n /\
+  n_store (fold_right (fun p m => stop_peer m p) n l) = n_store n /\
+  n_state (fold_right (fun p m => stop_peer m p) n l) = n_state n.
 Proof.
-  induction l as [|p l IH]; intros n; cbn; [repeat split|].
-  destruct (IH n) as [A [B C]]. destruct (stop_peer_frame (fold_right (fun p m => stop_peer sig m p) n l) p) as [A' [B' [C' _]]].
-  cbn in *. rewrite A', B', C'. repeat split; assumption.
+  induction l as [|p l IH]; intros n; cbn [fold_right]; [repeat split|].
+  destruct (IH n) as [A [B C]].
+  destruct (stop_peer_frame (fold_right (fun p m => stop_peer m p) n l) p) as [A' [B' C']].
+  rewrite A', B', C'. repeat split; assumption.
 Qed.
 
 Lemma verify_first_accept : forall vc st first second,
   verify_first' vc st first second = SV_accept ->
-  vc (st_vals st) (st_chain st) (b_id sig first) (b_height sig first) (b_last_commit sig second) = R_ok /\
+  vc (st_vals st) (st_chain st) (b_id first) (b_height first) (b_last_commit second) = R_ok /\
   validate_block st first = true.
 Proof.
   intros vc st first second. unfold verify_first.
   destruct (vc _ _ _ _ _); try discriminate. destruct (validate_block st first); [auto | discriminate].
 Qed.
 
-(* one step: the log grows by events [evs], the store by exactly their entries, and the state
-   changes only by executing a saved block *)
+(* quiet: nothing stored, nothing executed; the log gains at most a rejection *)
+Definition quiet (n n' : node sig) : Prop :=
+  n_store n' = n_store n /\ n_state n' = n_state n /\
+  (n_log n' = n_log n \/ exists v f s p1 p2, n_log n' = E_rejected v f s p1 p2 :: n_log n).
+
+(* saving: exactly one block stored, after an accepting verdict, then executed *)
+Definition saving (vc : vcheck sig) (n n' : node sig) : Prop :=
+  exists first second,
+    verify_first' vc (n_state n) first second = SV_accept /\
+    n_log n' = E_saved (n_state n) first second :: n_log n /\
+    n_store n' = save_block (n_store n) first (b_last_commit second) /\
+    ((apply_block (n_state n) first = None /\ n_state n' = n_state n) \/
+     exists nv, apply_block (n_state n) first = Some nv /\ n_state n' = next_state (n_state n) first nv).
+
+Lemma reject_quiet : forall (n : node sig) v first second, quiet n (reject_step n v first second).
+Proof.
+  intros n v first second. unfold reject_step, quiet.
+  destruct (redo_request (n_pool n) (b_height first)) as [[pl1 p1]|]; [|cbn; auto].
+  destruct (stop_peer_frame (with_pool n pl1) p1) as [A [B C]].
+  destruct (redo_request (n_pool (stop_peer (with_pool n pl1) p1)) (b_height second)) as [[pl2 p2]|].
+  - destruct (p2 =? p1); cbn [n_store n_state n_log].
+    + cbn [with_pool n_store n_state n_log]. rewrite A, B, C. cbn. repeat split. right. eauto 10.
+    + destruct (stop_peer_frame (with_pool (stop_peer (with_pool n pl1) p1) pl2) p2) as [A' [B' C']].
+      rewrite A', B', C'. cbn [with_pool n_store n_state n_log]. rewrite A, B, C. cbn. repeat split. right. eauto 10.
+  - cbn [panic n_store n_state n_log]. rewrite A, B, C. cbn. auto.
+Qed.
+
+Lemma process_cases : forall vc (n : node sig), quiet n (process' vc n) \/ saving vc n (process' vc n).
+Proof.
+  intros vc n. unfold process_step.
+  destruct (peek_two (n_pool n)) as [[first|] [second|]]; try solve [left; unfold quiet; auto].
+  destruct (verify_first' vc (n_state n) first second) eqn:Ev.
+  - destruct (pop_request (n_pool n)) as [pl|]; [|left; unfold quiet; cbn; auto].
+    right. exists first, second. split; [exact Ev|].
+    destruct (apply_block (n_state n) first) as [nv|] eqn:Ea; cbn; repeat split; eauto.
+  - left. apply reject_quiet.
+  - left. apply reject_quiet.
+Qed.
+
+Lemma step_cases : forall vc (n : node sig) o, quiet n (step' vc n o) \/ saving vc n (step' vc n o).
+Proof.
+  intros vc n o. unfold step. destruct (n_panicked n); [left; unfold quiet; auto|].
+  destruct o as [p base height| |h p|p b|p|].
+  - left. destruct ((p =? 0) || is_stopped n p); unfold quiet; cbn; auto.
+  - left. unfold quiet; cbn; auto.
+  - left. unfold quiet; cbn; auto.
+  - left. destruct ((p =? 0) || is_stopped n p); [unfold quiet; auto|].
+    unfold stop_reported.
+    match goal with |- quiet _ (fold_right _ ?m ?l) => destruct (stop_list_frame l m) as [A [B C]] end.
+    unfold quiet. rewrite A, B, C. cbn. auto.
+  - left. destruct ((p =? 0) || is_stopped n p); unfold quiet; cbn; auto.
+  - apply process_cases.
+Qed.
+
+(* ---- saved only if committed: along any run the log grows by events [evs], the store by exactly
+   their entries, and every saved event is justified *)
+Lemma saving_ok : forall vc, vc_sound vc -> forall (n : node sig) first second,
+  verify_first' vc (n_state n) first second = SV_accept ->
+  saved_ok (E_saved (n_state n) first second).
+Proof.
+  intros vc Hvc n first second Ev. apply verify_first_accept in Ev as [Hc Hv].
+  cbn. split; [exact Hv|]. intro Hwf.
+  destruct (Hvc _ _ _ _ _ Hwf Hc) as [A [B [C D]]]. repeat split; try assumption; try congruence.
+Qed.
+
 Lemma step_frame : forall vc, vc_sound vc -> forall (n : node sig) o,
   exists evs,
-    n_log sig (step' vc n o) = evs ++ n_log sig n /\
-    n_store sig (step' vc n o) = log_store evs ++ n_store sig n /\
-    Forall saved_ok evs /\
-    (n_state sig (step' vc n o) = n_state sig n \/
-     exists first second nv,
-       evs = [E_saved (n_state sig n) first second] /\
-       apply_block (n_state sig n) first = Some nv /\
-       n_state sig (step' vc n o) = next_state (n_state sig n) (b_height sig first) (b_id sig first) nv).
+    n_log (step' vc n o) = evs ++ n_log n /\
+    n_store (step' vc n o) = log_store evs ++ n_store n /\
+    Forall saved_ok evs.
 Proof.
-Abort.
+  intros vc Hvc n o. destruct (step_cases vc n o) as [[A [B [C|[v [f [s [p1 [p2 C]]]]]]]]|[first [second [Ev [A [B _]]]]]].
+  - exists []. cbn. auto.
+  - exists [E_rejected v f s p1 p2]. cbn. repeat split; try assumption. repeat constructor.
+  - exists [E_saved (n_state n) first second]. cbn. repeat split; try assumption.
+    constructor; [|constructor]. exact (saving_ok vc Hvc n first second Ev).
+Qed.
+
+Lemma run_frame : forall vc, vc_sound vc -> forall ops (n : node sig),
+  exists evs,
+    n_log (run' vc ops n) = evs ++ n_log n /\
+    n_store (run' vc ops n) = log_store evs ++ n_store n /\
+    Forall saved_ok evs.
+Proof.
+  intros vc Hvc ops. induction ops as [|o ops IH]; intros n.
+  - exists []. cbn. auto.
+  - cbn [run fold_left]. destruct (step_frame vc Hvc n o) as [e1 [A1 [B1 C1]]].
+    destruct (IH (step' vc n o)) as [e2 [A2 [B2 C2]]]. unfold run in *.
+    exists (e2 ++ e1). rewrite A2, B2, A1, B1. repeat split.
+    + rewrite app_assoc. reflexivity.
+    + assert (Hls : forall a b, log_store (a ++ b) = log_store a ++ log_store b).
+      { induction a as [|[st f s|v f s p1 p2] a IHa]; intros b; cbn; [reflexivity| |apply IHa].
+        rewrite IHa. reflexivity. }
+      rewrite Hls, app_assoc. reflexivity.
+    + apply Forall_app. split; assumption.
+Qed.
+
+(* the state changes only by executing a block that is being saved *)
+Lemma step_state : forall vc (n : node sig) o,
+  n_state (step' vc n o) = n_state n \/
+  exists first second nv,
+    In (E_saved (n_state n) first second) (n_log (step' vc n o)) /\
+    apply_block (n_state n) first = Some nv /\
+    n_state (step' vc n o) = next_state (n_state n) first nv.
+Proof.
+  intros vc n o. destruct (step_cases vc n o) as [[_ [B _]]|[first [second [_ [A [_ [[_ C]|[nv [Ea C]]]]]]]]].
+  - left. exact B.
+  - left. exact C.
+  - right. exists first, second, nv. rewrite A. cbn. auto.
+Qed.
+
+(* ================================================================== hand-over *)
+
+Definition ev_good (e : event sig) : Prop :=
+  match e with
+  | E_saved st first second =>
+    wf_valset (st_vals st) /\ keys_ok (st_vals st) /\
+    addrs_ok (st_vals st) (c_sigs (b_last_commit second))
+  | E_rejected _ _ _ _ _ => True
+  end.
+
+Definition ho_inv (n : node sig) : Prop := 0 <= st_height (n_state n) /\ handover' n = true.
+
+Section Handover.
+(* ValidateBlock accepts only the block of the next height (state/validation.go validateBlock) *)
+Hypothesis validate_height : forall st b, validate_block st b = true -> b_height b = st_height st + 1.
+
+Lemma step_handover : forall (n : node sig) o,
+  Forall ev_good (n_log (step' (verify_commit sv) n o)) -> ho_inv n -> ho_inv (step' (verify_commit sv) n o).
+Proof.
+  intros n o Hg [H0 Hh].
+  destruct (step_cases (verify_commit sv) n o) as [[A [B _]]|[first [second [Ev [A [B C]]]]]].
+  - unfold ho_inv, handover in *. rewrite A, B. auto.
+  - rewrite A in Hg. apply Forall_cons_iff in Hg as [[Hwf [Hk Ha]] _].
+    apply verify_first_accept in Ev as [Hc Hv]. pose proof (validate_height _ _ Hv) as Hht.
+    destruct C as [[_ C]|[nv [_ C]]]; unfold ho_inv, handover in *; rewrite B, C.
+    + split; [exact H0|]. cbn [save_block load_seen se_height].
+      assert (E : (b_height first =? st_height (n_state n)) = false) by lia. rewrite E. exact Hh.
+    + cbn [next_state st_height st_chain st_last_vals]. split; [lia|].
+      assert (E : (b_height first >? 0) = true) by lia. rewrite E.
+      cbn [save_block load_seen se_height se_seen]. rewrite Z.eqb_refl.
+      apply (reconstruct_ok (st_chain (n_state n)) (b_last_commit second) (st_vals (n_state n))
+                            (b_id first) (b_height first)); try assumption. lia.
+Qed.
+
+Lemma run_log_mono : forall vc ops (n : node sig), exists evs, n_log (run' vc ops n) = evs ++ n_log n.
+Proof.
+  intros vc ops. induction ops as [|o ops IH]; intros n; [exists []; reflexivity|].
+  cbn [run fold_left]. destruct (IH (step' vc n o)) as [e2 E2]. unfold run in *.
+  destruct (step_cases vc n o) as [[_ [_ [C|[v [f [s [p1 [p2 C]]]]]]]]|[first [second [_ [A _]]]]].
+  - exists e2. rewrite E2, C. reflexivity.
+  - exists (e2 ++ [E_rejected v f s p1 p2]). rewrite E2, C, <- app_assoc. reflexivity.
+  - exists (e2 ++ [E_saved (n_state n) first second]). rewrite E2, A, <- app_assoc. reflexivity.
+Qed.
+
+Lemma run_handover : forall ops (n : node sig),
+  Forall ev_good (n_log (run' (verify_commit sv) ops n)) -> ho_inv n -> ho_inv (run' (verify_commit sv) ops n).
+Proof.
+  induction ops as [|o ops IH]; intros n Hg Hi; [exact Hi|].
+  cbn [run fold_left] in *. apply IH; [exact Hg|]. apply step_handover; [|exact Hi].
+  destruct (run_log_mono (verify_commit sv) ops (step' (verify_commit sv) n o)) as [evs E].
+  unfold run in E. rewrite E in Hg. apply Forall_app in Hg as [_ Hg]. exact Hg.
+Qed.
+
+End Handover.
 
 End P.
